@@ -23,14 +23,24 @@ let txhist : (int * int, txrec) Hashtbl.t = Hashtbl.create 64
 type isl = { i_id : int; i_tries : int; i_exp : int; i_h : string }
 let impl_prev : (int, int * int * isl list) Hashtbl.t = Hashtbl.create 8
 let impl_prev_cl : (int, (int * string) list) Hashtbl.t = Hashtbl.create 8
+let impl_prev_replied : (int * int, unit) Hashtbl.t = Hashtbl.create 8   (* (client, id): the cached request has a stored reply *)
 (* C10 runtime spec: what the implementation's duplicate cache remembers, (client, id) -> record *)
 type duprec = { d_h : string; d_pkt : string; d_created : int; mutable d_reply : string option }
 let dupcache : (int * int, duprec) Hashtbl.t = Hashtbl.create 64
 let gone : (int, unit) Hashtbl.t = Hashtbl.create 8
 let pending_reset : (int, unit) Hashtbl.t = Hashtbl.create 8
 
+(* allocation-failure oracle handed to the model (C19); the proxy's ordinary behaviour is fs_none *)
+let fs_none (_ : n) = false
+let cur_fs : (n -> bool) ref = ref fs_none
+let fs (k : n) = !cur_fs k
+let case_exit : bool ref = ref false      (* the harness reports that the case ended in exit(1) *)
+let dead = ref false
+let in_fault = ref false    (* the current operation ran with a failed allocation: specs that presuppose memory do not apply *)
+
 let reset () =
-  Hashtbl.reset txhist; Hashtbl.reset impl_prev; Hashtbl.reset pending_reset; Hashtbl.reset impl_prev_cl; Hashtbl.reset dupcache; Hashtbl.reset gone;
+  cur_fs := fs_none; dead := false; in_fault := false;
+  Hashtbl.reset txhist; Hashtbl.reset impl_prev; Hashtbl.reset pending_reset; Hashtbl.reset impl_prev_cl; Hashtbl.reset impl_prev_replied; Hashtbl.reset dupcache; Hashtbl.reset gone;
   options := opt_default; clients := []; servers := []; realms := []; st := None; Hashtbl.reset display; diverged := false
 
 let b01 s = (s = "1")
@@ -150,7 +160,7 @@ let check_reply_out opidx (c : int) (pkt : n list) (reqauth : n list) (reqid : i
     spec opidx "C06_emit_response_auth" (response_auth_ok md5 pkt reqauth secret) (Printf.sprintf "code %d to client %d" code c);
     if List.mem code [ 2; 3; 11; 42; 45 ] then
       spec opidx "C06_emit_msgauth" (first_is_msgauth pkt && all_msgauth_ok md5 pkt (Some reqauth) secret) (Printf.sprintf "code %d to client %d" code c);
-    if code = 42 || code = 45 then
+    if (code = 42 || code = 45) && not !in_fault then
       spec opidx "C05_nak_error_cause"
         (List.exists (fun (t, _, v) -> t = 101 && List.map int_of_n v = [ 0; 0; 1; 150 ]) (attr_list pkt)) "Error-Cause must be 406, big-endian"
   end
@@ -265,6 +275,7 @@ let check_no_displace opidx impl_all c (_pkt : n list) =
 
 (* C10 on the implementation's observations at a client packet *)
 let check_dup opidx impl_all c now (pkthex : string) =
+  if !in_fault then Hashtbl.reset dupcache else
   let pkthex = String.lowercase_ascii pkthex in
   let id = if String.length pkthex >= 4 then int_of_string ("0x" ^ String.sub pkthex 2 2) else -1 in
   let pre = match Hashtbl.find_opt impl_prev_cl c with Some l -> l | None -> [] in
@@ -282,7 +293,10 @@ let check_dup opidx impl_all c now (pkthex : string) =
        (match d.d_reply with
         | Some b -> spec opidx "C10_replay_same_bytes" (replies = [ [ string_of_int c; b ] ])
                       (Printf.sprintf "client %d id %d: %d replies" c id (List.length replies))
-        | None -> spec opidx "C10_dup_ignored" (replies = []) (Printf.sprintf "client %d id %d" c id))
+        | None ->
+            (* a reply may be stored without ever having been queued (the queue could not grow): then it is replayed *)
+            if not (Hashtbl.mem impl_prev_replied (c, id)) then
+              spec opidx "C10_dup_ignored" (replies = []) (Printf.sprintf "client %d id %d" c id))
    | dopt ->
        (match dopt with
         | Some d when d.d_pkt = pkthex ->
@@ -343,6 +357,16 @@ let check_refs opidx impl_all =
 
 let remember_impl impl_all =
   List.iter (fun t -> match parse_impl_cl t with Some (c, x) -> Hashtbl.replace impl_prev_cl c x | None -> ()) (impl_events impl_all "cl");
+  List.iter (fun t -> match t with
+      | c :: rest ->
+          (try
+             let c = int_of_string c in
+             Hashtbl.filter_map_inplace (fun (c', _) v -> if c' = c then None else Some v) impl_prev_replied;
+             List.iter (fun e -> match String.split_on_char ':' e with
+                 | [ id; _; _; "r" ] -> Hashtbl.replace impl_prev_replied (c, int_of_string id) ()
+                 | _ -> ()) (String.split_on_char ',' (get (kv rest) "cache" ""))
+           with _ -> ())
+      | [] -> ()) (impl_events impl_all "cl");
   List.iter (fun t -> match parse_impl_srv t with Some (sv, x) -> Hashtbl.replace impl_prev sv x | None -> ()) (impl_events impl_all "srv")
 
 let note_enq impl_all =
@@ -372,6 +396,9 @@ let check_tx opidx impl_all now =
 
 let op_cpkt opidx impl_all toks =
   match toks with
+  | [ _; _; _; _ ] when fs N0 ->
+      (* the request object itself could not be allocated: the transport drops the datagram *)
+      pr "obs %d ret -1\n" opidx; print_state opidx (get_state ())
   | [ c; now; rnd; pkt ] ->
       let s = get_state () in
       let c = int_of_string c in
@@ -387,7 +414,7 @@ let op_cpkt opidx impl_all toks =
                  rq_msg = None; rq_from = Some (nat_of_int c); rq_to = None; rq_origuser = None; rq_rqid = N0;
                  rq_rqauth = repeat N0 16; rq_newid = N0 } in
       let s, h = alloc_rq s rq in
-      let s, o = radsrv md5 rx (config ()) s h (nat_of_int c) (z_of_int (int_of_string now)) (bytes_of_hex rnd) in
+      let s, o = radsrv md5 rx (config ()) fs s h (nat_of_int c) (z_of_int (int_of_string now)) (bytes_of_hex rnd) in
       st := Some s;
       print_outs opidx o ~wake_first:false; flush_misses opidx; print_state opidx s
   | _ -> ()
@@ -423,7 +450,7 @@ let do_reply opidx impl_all s srv now rnd (pkt : n list) =
                | _ -> ()) (impl_events impl_all "reply")
        | None -> ())
    | None -> spec opidx "C04_no_delivery_without_request" (impl_events impl_all "reply" = []) "");
-  let s, o = replyh md5 rx (config ()) s (nat_of_int srv) pkt (z_of_int now) rnd in
+  let s, o = replyh md5 rx (config ()) fs s (nat_of_int srv) pkt (z_of_int now) rnd in
   st := Some s;
   print_outs opidx o ~wake_first:false; flush_misses opidx; print_state opidx s
 
@@ -520,7 +547,7 @@ let op_wpass opidx impl_all toks =
       List.iter (function [ sv; _; p ] -> check_request_out opidx (int_of_string sv) (bytes_of_hex p) | _ -> ()) (impl_events impl_all "tx");
       List.iter (function [ sv; _; p ] -> check_request_out opidx (int_of_string sv) (bytes_of_hex p) | _ -> ()) (impl_events impl_all "enq");
       let putfail = (rest = [ "putfail" ]) in
-      let s, o = writer_release md5 (config ()) (nat_of_int 4) s (nat_of_int (int_of_string srv)) (z_of_int (int_of_string now)) (bytes_of_hex rnd) putfail in
+      let s, o = writer_release md5 (config ()) fs (nat_of_int 4) s (nat_of_int (int_of_string srv)) (z_of_int (int_of_string now)) (bytes_of_hex rnd) putfail in
       st := Some s;
       print_outs opidx o ~wake_first:true; print_state opidx s
   | _ -> ()
@@ -608,8 +635,62 @@ let run_op (opidx : int) (impl_all : string list list) (toks : string list) : bo
   | "dynflush" :: r -> op_dynflush opidx impl_all r; true
   | _ -> false
 
+(* ---- C19: an operation during which the n-th allocation of the implementation failed.  The outcome must be
+   the model's outcome under SOME single stage failure (or none, when the failure was absorbed); the matching
+   oracle is adopted and the history goes on from the model state it leads to. ---- *)
+let stages = [ 0; 1; 2; 3; 4; 5; 6; 7; 8; 9; 10; 11; 12; 13; 14; 15; 20; 21; 24; 25; 29; 30; 40; 41; 130; 131; 132; 133 ]
+let deep (x : 'a) : 'a = Marshal.from_string (Marshal.to_string x []) 0
+let restore t copy = Hashtbl.reset t; Hashtbl.iter (fun k v -> Hashtbl.replace t k v) copy
+let run_failat (opidx : int) (impl_all : string list list) (inner : string list) : bool =
+  let alloc = impl_events impl_all "alloc" in
+  let impl_rest = List.filter (function "alloc" :: _ -> false | _ -> true) impl_all in
+  let reached = match alloc with [ kvs ] -> get (kv kvs) "reached" "0" = "1" | _ -> false in
+  let echo_alloc () = match alloc with [ kvs ] -> pr "obs %d alloc %s\n" opidx (String.concat " " kvs) | _ -> () in
+  if alloc = [] && !case_exit then begin
+    (* the process ended deliberately inside this operation (the line that closes a failat operation is missing) *)
+    dead := true;
+    List.iter (fun toks -> pr "obs %d %s\n" opidx (String.concat " " toks)) impl_rest;
+    spec opidx "C19_deliberate_exit" true "exit(1) during the operation"; true
+  end else if not reached then begin
+    let r = run_op opidx impl_rest inner in echo_alloc (); r
+  end else begin
+    in_fault := true;
+    let theirs = List.map (fun toks -> String.concat " " ("obs" :: string_of_int opidx :: toks)) impl_rest in
+    let slot_stages = List.concat (List.map (fun (sv : server) -> let nx = int_of_n sv.s_nextid in [ 100; 101; 100 + nx; 101 + nx ]) (get_state ()).st_servers) in
+    let cands = (fun _ -> false) :: List.map (fun k -> fun (x : n) -> int_of_n x = k) (stages @ List.sort_uniq compare slot_stages) in
+    let names = "none" :: List.map string_of_int (stages @ List.sort_uniq compare slot_stages) in
+    let try_c f =
+      let snap = (deep !st, deep display, deep txhist, deep dupcache, deep impl_prev, deep impl_prev_cl, deep pending_reset, deep gone, !diverged) in
+      let mark = Buffer.length out in
+      cur_fs := f;
+      ignore (run_op opidx impl_rest inner);
+      cur_fs := fs_none;
+      let txt = Buffer.sub out mark (Buffer.length out - mark) in
+      Buffer.truncate out mark;
+      let (a, b, c, d, e, f', g, h, i) = snap in
+      st := a; restore display b; restore txhist c; restore dupcache d; restore impl_prev e; restore impl_prev_cl f'; restore pending_reset g; restore gone h; diverged := i;
+      let mine = List.filter (fun l -> String.length l > 4 && String.sub l 0 4 = "obs ") (String.split_on_char '\n' txt) in
+      if Sys.getenv_opt "VERIF_C19_DEBUG" <> None then begin
+        prerr_endline "--- candidate"; List.iter prerr_endline mine; prerr_endline "--- impl"; List.iter prerr_endline theirs end;
+      mine = theirs in
+    let rec find cs ns = match cs, ns with
+      | c :: cs', nm :: ns' -> if try_c c then Some (c, nm) else find cs' ns'
+      | _ -> None in
+    (match find cands names with
+     | Some (f, nm) ->
+         spec opidx "C19_outcome_explained" true ("as the model with failing stage " ^ nm);
+         cur_fs := f; let r = run_op opidx impl_rest inner in cur_fs := fs_none; echo_alloc (); r
+     | None ->
+         spec opidx "C19_outcome_explained" false "the outcome is neither the completed operation nor the model's outcome for any single failing stage";
+         let r = run_op opidx impl_rest inner in echo_alloc (); r)
+    |> fun r -> in_fault := false; r
+  end
+
 let run (opidx : int) (impl_all : string list list) (toks : string list) : bool =
-  let r = run_op opidx impl_all toks in
+  if !dead then true else
+  let r = match toks with
+    | "failat" :: _ :: inner -> run_failat opidx impl_all inner
+    | _ -> run_op opidx impl_all toks in
   if r then begin
     check_slots opidx impl_all; note_replies impl_all; check_refs opidx impl_all;
     (match !st with Some s -> spec opidx "C17_model_refs" (rc_ok s) "reference counts of the model state" | None -> ())
